@@ -269,3 +269,70 @@ func execDiskWatch(in string) Result {
 		Nontrivial: np > 0 && nr > 0,
 	}
 }
+
+// ---- driver "diskstat": which number CheckDiskUsage takes for "free space" --------------------
+// The real CheckDiskUsage(path) is called on real volumes with an operator threshold placed well
+// below the space available to the crawler (statfs f_bavail: "lo"), between f_bavail and f_bfree
+// (the blocks reserved for root lie in between on ext4: "mid"), or well above f_bfree ("hi").
+// The case is the `dcase` of driver "disk" with free = f_bavail * f_bsize as measured by the
+// harness just before the call.  Input: "<path>|<lo|mid|hi>".
+
+func execDiskStat(in string) Result {
+	parts := strings.SplitN(in, "|", 2)
+	if len(parts) != 2 {
+		return Result{Term: "DC 0%Z (FFin false 0%Z 0%Z) []", Tags: []string{"bad-input"}}
+	}
+	path, pos := parts[0], parts[1]
+	var st syscall.Statfs_t
+	if err := syscall.Statfs(path, &st); err != nil {
+		return Result{Term: "DC 0%Z (FFin false 0%Z 0%Z) []", Tags: []string{"statfs-failed:" + path}}
+	}
+	total := st.Blocks * uint64(st.Bsize)
+	avail := st.Bavail * uint64(st.Bsize)
+	free := st.Bfree * uint64(st.Bsize)
+	margin := 4 * gib // other processes write to these volumes while we measure
+	reserved := free > avail+3*margin
+	var threshold uint64
+	switch pos {
+	case "lo":
+		if avail < 2*margin {
+			return Result{Term: "DC 0%Z (FFin false 0%Z 0%Z) []", Tags: []string{"volume-too-full:" + path}}
+		}
+		threshold = avail - margin
+	case "mid":
+		if !reserved {
+			return Result{Term: "DC 0%Z (FFin false 0%Z 0%Z) []", Tags: []string{"no-reserved-blocks:" + path}}
+		}
+		threshold = avail + (free-avail)/2
+	default:
+		threshold = free + margin
+	}
+	ms := float64(threshold/gib) + 0.5 // whole GiB and a half: exactly representable
+	old := config.Get().MinSpaceRequired
+	config.Get().MinSpaceRequired = ms
+	refused := watchers.CheckDiskUsage(path) != nil
+	config.Get().MinSpaceRequired = old
+	return Result{
+		Term:       fmt.Sprintf("DC %s %s [(%s, %s)]", coqZu(total), coqFloat(ms), coqZu(avail), coqBool(refused)),
+		Tags:       []string{"path:" + path, "pos:" + pos, fmt.Sprintf("reserved-blocks:%v", reserved)},
+		Nontrivial: pos == "mid",
+	}
+}
+
+func genDiskStat(r *Rng, i int, tier string) string {
+	paths := []string{"/", "/tmp", "/verif", "/dev/shm", "/root"}
+	return paths[(i/3)%len(paths)] + "|" + []string{"lo", "mid", "hi"}[i%3]
+}
+
+func init() {
+	register(&Driver{
+		Name:     "diskstat",
+		Header:   "From ZenoV Require Import Lib.Harness Disk.Threshold Disk.DiskHarness.\nOpen Scope Z_scope.\n",
+		CaseType: "dcase",
+		Footer:   stdFooter,
+		Rule:     "one case = the real CheckDiskUsage on a real volume with the operator threshold below / between / above the space available to the crawler and the space free including root's reserve; non-trivial when the threshold lies between the two (needs a volume with reserved blocks)",
+		Setup:    func() { config.InitConfig() },
+		Gen:      genDiskStat,
+		Exec:     execDiskStat,
+	})
+}
